@@ -105,7 +105,9 @@ Holds(W, t, a) ==
     \* Literal: an instance of the literal's bound (the classes of its values) equal to one of them:
     \* Literal[1] admits True (a bool is an int), Literal[True] does not admit 1
     [] t.k = "lit"    -> Sat(W, t.bound, a.c) /\ \E j \in DOMAIN t.vals : ValEq(t.vals[j], a.v)
-    [] t.k = "dep"    -> Sat(W, t.bound, a.c) /\ a.name \in Range(t.holds)
+    \* the bound may itself be value-dependent (Dependent[Literal[1, 2], p], Dependent[tuple[int, int], p])
+    [] t.k = "dep"    -> (IF t.bound.k \in {"lit", "dep", "prod"} THEN Holds(W, t.bound, a) ELSE Sat(W, t.bound, a.c))
+                         /\ a.name \in Range(t.holds)
     [] t.k = "prod"   -> /\ Sat(W, t.bound, a.c) /\ a.v.t = "tuple"
                          /\ Len(a.v.v) = Len(t.args)
                          /\ \A j \in DOMAIN t.args : Holds(W, t.args[j], a.v.v[j])
